@@ -41,10 +41,11 @@ Section Compensation.
   Variable m1t : Q -> Q -> Q.      (* integrate_against_x of the truncated measure *)
   Variable m2t : Q -> Q -> Q.      (* integrate_against_xx of the truncated measure *)
   Variable pinf : Q.
+  Variable err : Q.                (* the value of a `raise` in the generated conversions (ZERO representation, infinite variation) *)
 
   (* LevyTriplet.set_representation(TILDE): a is replaced by tilde_drift() unless the triplet is already TILDE *)
   Definition a_tilde (rep : Z) (fv : bool) (a : Q) : Q :=
-    if Z.eqb rep 4 then a else tilde_drift m1t pinf rep fv a.
+    if Z.eqb rep 4 then a else tilde_drift m1t pinf err rep fv a.
 
   (* initialisation: v = 0.0 if finite variation else 1.0; mu_tilde = int_{-inf}^{-v} x nu + int_v^{inf} x nu *)
   Definition v_cut (fv : bool) : Q := if fv then 0 else 1.
@@ -75,16 +76,16 @@ End Compensation.
    a_k the margin's triplet drift after set_representation(TILDE) (the margin's OWN finite-variation flag) and
    mu_tilde_k cut at V_k.  `fvV` is the flag the code uses for V_k: the repaired code (fix-grid2) passes the margin's own
    flag (fvV = fv); the previous code passed the joint flag of the copula model. *)
-Definition process_drift_v (m1t : Q -> Q -> Q) (pinf model_drift : Q) (rep : Z) (fv fvV : bool) (a mu_h : Q) : Q :=
-  model_drift + a_tilde m1t pinf rep fv a + mu_tilde m1t pinf fvV - mu_h.
+Definition process_drift_v (m1t : Q -> Q -> Q) (pinf err model_drift : Q) (rep : Z) (fv fvV : bool) (a mu_h : Q) : Q :=
+  model_drift + a_tilde m1t pinf err rep fv a + mu_tilde m1t pinf fvV - mu_h.
 
 (* one margin of a copula chain: its own first-moment integral, truncation bounds, triplet, axis and cell masses *)
 Record cmargin := {
-  cm_m1 : Q -> Q -> Q; cm_l : Q; cm_r : Q; cm_pinf : Q; cm_md : Q; cm_rep : Z; cm_fv : bool; cm_a : Q;
+  cm_m1 : Q -> Q -> Q; cm_l : Q; cm_r : Q; cm_pinf : Q; cm_err : Q; cm_md : Q; cm_rep : Z; cm_fv : bool; cm_a : Q;
   cm_xs : list Q; cm_o : nat; cm_mass : Q -> Q -> Q }.
 Definition cm_m1t (m : cmargin) : Q -> Q -> Q := tmass (cm_m1 m) (cm_l m) (cm_r m).
 Definition cm_drift (mid : Q -> Q -> Q) (m : cmargin) : Q :=
-  process_drift_v (cm_m1t m) (cm_pinf m) (cm_md m) (cm_rep m) (cm_fv m) (cm_fv m) (cm_a m)
+  process_drift_v (cm_m1t m) (cm_pinf m) (cm_err m) (cm_md m) (cm_rep m) (cm_fv m) (cm_fv m) (cm_a m)
                   (compute_mu_h mid (cm_mass m) (cm_xs m) (cm_o m)).
 Definition copula_process_drift (mid : Q -> Q -> Q) (ms : list cmargin) : list Q := map (cm_drift mid) ms.
 
@@ -102,10 +103,20 @@ Definition step_m2 (ps : list (Q * Q * Q)) (a b : Q) : Q := qsum (map (piece_m2 
 
 (* what MarkovChainProcess(StepModel(ps, a, sigma, rep, fv), grid).initialisation computes *)
 Definition chain_pinf (xs : list Q) : Q := 1 + Qabs (headq xs) + Qabs (lastq xs).
+(* sentinel for the ValueError of the conversions; far outside the range of the correspondence inputs *)
+Definition chain_err : Q := - (1000003 # 1).
+(* valid_rep: the ZERO representation requires jumps of finite variation (levymodel.py raises ValueError otherwise) *)
+Definition valid_repb (rep : Z) (fv : bool) : bool := fv || negb (Z.eqb rep 1).
 Definition chain_mu_h (ps : list (Q * Q * Q)) (xs : list Q) (o : nat) : Q :=
   compute_mu_h amid (chain_mass ps xs) xs o.
 Definition chain_process_drift (ps : list (Q * Q * Q)) (xs : list Q) (o : nat) (md : Q) (rep : Z) (fv : bool) (a : Q) : Q :=
-  process_drift (tmass (step_m1 ps) (headq xs) (lastq xs)) (chain_pinf xs) md rep fv a (chain_mu_h ps xs o).
+  process_drift (tmass (step_m1 ps) (headq xs) (lastq xs)) (chain_pinf xs) chain_err md rep fv a (chain_mu_h ps xs o).
+(* MarkovChainProcess.__init__ raises (set_representation(TILDE) -> tilde_drift -> canonical_drift) exactly when the generated
+   conversion returns the error value: None *)
+Definition chain_a_tilde (ps : list (Q * Q * Q)) (xs : list Q) (rep : Z) (fv : bool) (a : Q) : Q :=
+  a_tilde (tmass (step_m1 ps) (headq xs) (lastq xs)) (chain_pinf xs) chain_err rep fv a.
+Definition chain_process_drift_opt (ps : list (Q * Q * Q)) (xs : list Q) (o : nat) (md : Q) (rep : Z) (fv : bool) (a : Q) : option Q :=
+  if Qeq_bool (chain_a_tilde ps xs rep fv a) chain_err then None else Some (chain_process_drift ps xs o md rep fv a).
 Definition chain_sig_h2 (ps : list (Q * Q * Q)) (xs : list Q) (sigma : Q) (fv : bool) (h : Q) : Q :=
   sig_h2 (tmass (step_m2 ps) (headq xs) (lastq xs)) sigma fv h.
 Definition chain_mean (ps : list (Q * Q * Q)) (xs : list Q) (o : nat) : Q :=
@@ -117,4 +128,4 @@ Definition copula_chain_drift (ms : list (list (Q * Q * Q) * list Q * nat * Q * 
   map (fun m => match m with (ps, xs, o, md, rep, fv, a) => chain_process_drift ps xs o md rep fv a end) ms.
 Definition copula_chain_drift_joint (joint_fv : bool) (ms : list (list (Q * Q * Q) * list Q * nat * Q * Z * bool * Q)) : list Q :=
   map (fun m => match m with (ps, xs, o, md, rep, fv, a) =>
-         process_drift_v (tmass (step_m1 ps) (headq xs) (lastq xs)) (chain_pinf xs) md rep fv joint_fv a (chain_mu_h ps xs o) end) ms.
+         process_drift_v (tmass (step_m1 ps) (headq xs) (lastq xs)) (chain_pinf xs) chain_err md rep fv joint_fv a (chain_mu_h ps xs o) end) ms.
